@@ -62,6 +62,9 @@ pub fn config_name() -> String {
         } else {
             s.push_str("E-none");
         }
+        if !cfg!(debug_assertions) {
+            s.push_str("-plain");
+        }
     } else if cfg!(miri) {
         s.push_str("M-");
         s.push_str(std::env::consts::ARCH);
